@@ -68,6 +68,11 @@ def run(R, ctx):
     index_table(R, ctx)
     index_state_rule(R, ctx)
     collision_rules(R, ctx)
+    # a restart must find the previous run's current file under the name this naming writes to and rotate (or continue) it: otherwise the open that
+    # follows truncates it and the stream loses that file's records (start table shared with R06.3 / R06.5)
+    R.rule('R01.10', 'start: the left-over current file is rotated or continued, never truncated (shared with R06.3)')
+    import c06 as _c06
+    _c06.start_table(Relabel(R, {'R06.3': 'R01.10', 'R06.5': 'R01.10'}), ctx, restart_sibling_clause=False)
     b, wbb = c08.find_sink(ctx)
     mounts = [bb for bb, t in b.calls() if callee_name(t) in f.bodies and
               'writers::file_log_writer::state::RollState::rotation_necessary' in cg.reachable([callee_name(t)], spawn=False)]
